@@ -54,6 +54,7 @@ def eventsOf (obs : List Rec) : List (Ev Float) := obs.filterMap recEv
 
 def outcome (obs : List Rec) : String :=
   if obs.any (·.name == "panic") then "panic"
+  else if obs.any (·.name == "hang") then "hang"
   else if obs.any (·.name == "capped") then "capped"
   else if obs.any (·.name == "runerr") then "runerr"
   else if obs.any (·.name == "result") then "result"
@@ -63,6 +64,7 @@ def forRuns (trace : List (Rec × List Rec)) (f : Rec → List Rec → Option St
   trace.findSome? fun (op, obs) =>
     if op.name != "run" then none
     else if outcome obs == "panic" then some ("the run panicked: " ++ ((obs.find? (·.name == "panic")).map (·.str "msg")).getD "")
+    else if outcome obs == "hang" then some "the run does not stop: it neither returned nor emitted another event before the deadline"
     else f op obs
 
 /-- C03 -/
